@@ -27,6 +27,20 @@ theorem lhs_transforms_are_modelled : Explanatory.lhsTransforms = LhsT.all.map L
 /-- the plan transforms of the code are exactly the seven of the model -/
 theorem plan_transforms_are_modelled : Explanatory.planTransforms = PlanT.all.map PlanT.name := by decide
 
+/-- **every row of `CHOOSE_TRANSFORM_CLASS`, alias spellings included, points at the class of the transform that spelling
+documents** (`PlanT.ofSpelling?`; the formulas of the classes are the subject of `plan_*` / `detectExogenized_hits_target`) -/
+theorem plan_spellings_resolve :
+    ∀ row ∈ Explanatory.planChoose, (PlanT.ofSpelling? row.1).map PlanT.name = some row.2 := by decide
+
+/-- ... and the table has a row for every documented spelling, and no two rows for one spelling -/
+theorem plan_spellings_complete :
+    (∀ s ∈ PlanT.spellings, ∃ row ∈ Explanatory.planChoose, row.1 = s)
+      ∧ (Explanatory.planChoose.map (·.1)).Nodup := by decide
+
+/-- non-vacuity: the alias resolves like the canonical spelling -/
+example : PlanT.ofSpelling? "difflog" = PlanT.ofSpelling? "diff_log" ∧ PlanT.ofSpelling? "level" = some PlanT.none
+    ∧ PlanT.ofSpelling? "diflog" = none := by decide
+
 /-- `Explanatory.simulate` is the single statement `data[lhs, t] = eval_level(data, t)` -/
 theorem simulate_statements : Explanatory.simulateSteps = [3] := by decide
 
